@@ -103,6 +103,8 @@ def run_loop(program, skw, choices, values, unknown_at=(), costs=None, default_c
             try:
                 sol = solver.solve()
                 err = None
+            except ctl.ReplayDivergence:
+                raise
             except Exception as e:
                 sol, err = None, f"{type(e).__name__}: {e}"[:150]
         env.leftover_scopes = env.depth
